@@ -490,6 +490,12 @@ def main():
         error_msg("I/O ERROR: " + str(e))
         sys.exit(-1)
 
+    except (OverflowError, MemoryError, RecursionError) as e:
+        # sizes beyond what the machine (or python) can handle
+        error_msg("ERROR: the request is too large to be served ({})".format(
+            type(e).__name__))
+        sys.exit(-1)
+
     # avoid signaling BrokenPipeError as whatnot
     sys.stderr.close()
 
